@@ -162,3 +162,25 @@ func verifChooseLen() int {
 	verifAssume(n >= 0 && n <= 3)
 	return n
 }
+
+// A payload well beyond the symbolic bound of VerifH_ck (and beyond typical buffer / logging
+// limits): 5000 bytes of concrete content, symbolic checksum value.  Length-dependent behaviour
+// (truncation, chunking) shows here.
+func VerifH_ckbig() {
+	const n = 5000
+	payload := make([]byte, n) // (content: zeros - the subject is the length)
+	payload[0], payload[n-1] = 0x0a, 0x7e
+	inner := &vCodec{out: payload}
+	c := &myCodec{protoCodec: inner}
+	out, err := c.Marshal(&vMsg{Name: "big"})
+	verifReach("after marshal")
+	verifAssert(err == nil && inner.calls == 1, "C19: marshalling a large message failed")
+	crc := verifCrcOf(payload)
+	verifAssert(verifCrcArgsOK(payload), "C19: checksum not computed over the standard encoding with the CRC32C polynomial")
+	verifAssert(len(out) == 6+n, "C19: output is not the standard encoding plus exactly 6 bytes (large message)")
+	if len(out) == 6+n {
+		verifAssert(out[0] == 0xfd && out[1] == 0x7f && out[2] == byte(crc) && out[3] == byte(crc>>8) && out[4] == byte(crc>>16) && out[5] == byte(crc>>24), "C19: prefix of a large message is not tag + little-endian CRC32C")
+		verifAssert(verifBytesEqual(out[6:], payload), "C19: standard encoding of a large message changed")
+	}
+	verifObserve("len", uint64(len(out)))
+}
